@@ -14,3 +14,5 @@ import Theorems.C19
 #print axioms C19.additive_fixed_noise_differentiable
 #print axioms C19.fading_fixed_differentiable
 #print axioms C19.awgn_snr_differentiableAt
+#print axioms C19.total_power_hasFDerivAt
+#print axioms C19.total_power_fderiv_apply
